@@ -57,6 +57,19 @@ def run(chk: Check) -> None:
                                                                        "queue": [cm["id"]], "dryRun": True, "workers": 1},
                         "steps": [{"argv": argv + ["--dry-run"], "keep_after": True}, {"argv": argv, "fresh": True}]})
     scenarios += dep_scn
+    # ---- other options: a RELATIVE --output, run from a working directory outside the project (the report belongs
+    # there; nothing may appear or change under the target - also not a project file of the same relative name)
+    from .. import space
+
+    for i, prog in enumerate(("xml", "subprocess", "requests")):
+        cid = {"xml": "pixee:python/use-defusedxml", "subprocess": "pixee:python/sandbox-process-creation", "requests": "pixee:python/requests-verify"}[prog]
+        files = dict(space.project_files(prog, "lf", "requirements"))
+        if i % 2 == 0:
+            files["out-rel.codetf"] = '{"kept": true}\n'
+        argv = ["{dir}", "--output", "out-rel.codetf", "--codemod-include", cid]
+        scenarios.append({"id": f"C04-relout-{i}", "files": files,
+                          "_v": {"program": prog, "layout": "lf", "manifest": "requirements+relative-output", "queue": [cid], "dryRun": True, "workers": 1},
+                          "steps": [{"argv": argv + ["--dry-run"], "keep_after": True, "cwd": "{work}"}, {"argv": argv, "fresh": True, "cwd": "{work}"}]})
 
     def post(scn, res):
         v = scn["_v"]
@@ -79,7 +92,7 @@ def run(chk: Check) -> None:
             bad.append("tree-differs-after-dry-run:" + ",".join(dry["changed_files"][:3]))
         if bad:
             chk.violation(
-                f"C04|{v['manifest']}|{'>'.join(c.split('/')[-1] for c in v['queue'])}|layout={v['layout']}|{'+'.join(b.split(':')[0] + ':' + b.split(':')[1][:40] for b in bad)}",
+                f"C04|{'+'.join(b.split(':')[0] + ':' + b.split(':')[1][:40] for b in bad)}|{v['manifest']}|{'>'.join(c.split('/')[-1] for c in v['queue'])}|layout={v['layout']}",
                 f"{runspace.vkey(v)}: {bad} {dry.get('_diff', '')}",
                 {"vector": v, "files": scn["files"], "argv": scn["steps"][0]["argv"], "verdict": bad, "report_difference": dry.get("_diff")},
             )
